@@ -126,6 +126,8 @@ static void run_spec(const RunSpec& spec) {
   if (p.get("max_steps", 0) > 0) G.max_steps = (uint64_t)p.get("max_steps", 0);  // long burn-in shapes
   G.post_pts = (int)p.get("post_pts", 0);
   G.relseq17 = (int)p.get("relseq17", 0);
+  G.post_stall_den = (uint32_t)p.get("post_stall", 0);
+  G.stall_tid = -1; G.stall_to = 0;
   G.storebuf = (int)p.get("sb", 0);
   G.commit_den = (uint32_t)p.get("sb_den", 8);
   if (G.commit_den < 1) G.commit_den = 1;
